@@ -175,6 +175,12 @@ func (x *Exec) execInvoke(p *Path, c *ssa.CallCommon, recv SV, args []SV, res ss
 		x.errorf("%s: no contract for %s (invoked at %s)", x.cur.ct.Func, key, x.pos(in))
 		return false
 	}
+	if ct.Flags["inline"] {
+		// tiny contract-less method (Init, Ego): run the *list / *object body on the implementation
+		if fn := x.lookupFunc(key); fn != nil {
+			return x.callFunc(p, fn, nil, append([]SV{vars["ego"]}, args...), res, in, work)
+		}
+	}
 	for fl := range ct.Flags {
 		if strings.HasPrefix(fl, "implements=") && len(ct.Ensures) == 0 {
 			// an implementation that only restates the interface-level contract
@@ -267,17 +273,31 @@ func (x *Exec) allFuncs() map[*ssa.Function]bool {
 // applyContract: assert requires, split on the panic domain, havoc the frame, assume ensures.
 func (x *Exec) applyContract(p *Path, ct *Contract, vars map[string]SV, results *types.Tuple, site string, in ssa.Instruction, work *[]*Path) (SV, bool) {
 	x.usedCt[ct.Func] = true
-	// publish under-construction containers passed to the callee
+	// publish under-construction containers that are passed to the callee (receiver or direct argument)
 	if len(p.unpub) > 0 {
-		for _, v := range vars {
-			if v.K == KTerm {
-				for _, u := range p.unpub {
-					if strings.HasSuffix(u, "|"+v.T) || strings.Contains(v.T, strings.SplitN(u, "|", 2)[1]+")") {
-						x.publishAll(p)
-						break
-					}
+		kinds := fmt.Sprintf("(Kind %s)", p.H)
+		changed := false
+		for _, u := range p.unpub {
+			parts := strings.SplitN(u, "|", 2)
+			var conds []string
+			for _, v := range vars {
+				if v.K != KTerm {
+					continue
+				}
+				switch v.S {
+				case SRefL, SRefO:
+					conds = append(conds, fmt.Sprintf("(= %s %s)", v.T, parts[1]))
+				case SVal:
+					conds = append(conds, fmt.Sprintf("(= %s (VList %s))", v.T, parts[1]), fmt.Sprintf("(= %s (VObj %s))", v.T, parts[1]))
 				}
 			}
+			if len(conds) > 0 {
+				kinds = fmt.Sprintf("(store %s %s (ite (or %s) %s (select (Kind %s) %s)))", kinds, parts[1], strings.Join(conds, " "), parts[0], p.H, parts[1])
+				changed = true
+			}
+		}
+		if changed {
+			x.upd(p, "Kind", kinds)
 		}
 	}
 	pre := p.H
@@ -368,10 +388,13 @@ func (x *Exec) applyContract(p *Path, ct *Contract, vars map[string]SV, results 
 		for _, ax := range frameAxioms(&cfs, pre, post) {
 			p.assume(ax)
 		}
+		x.seedFrame(p, &cfs, pre, post)
 		p.assume(freshOwn(pre, post))
-		p.assume(fmt.Sprintf("(= (TrLen %s) (TrLen %s))", post, pre))
-		p.assume(fmt.Sprintf("(= (TrA %s) (TrA %s))", post, pre))
-		p.assume(fmt.Sprintf("(= (TrB %s) (TrB %s))", post, pre))
+		if !ct.Flags["callbacks"] {
+			p.assume(fmt.Sprintf("(= (TrLen %s) (TrLen %s))", post, pre))
+			p.assume(fmt.Sprintf("(= (TrA %s) (TrA %s))", post, pre))
+			p.assume(fmt.Sprintf("(= (TrB %s) (TrB %s))", post, pre))
+		}
 		p.H = post
 		if !ct.Flags["nowf"] {
 			p.assume(fmt.Sprintf("(wf %s)", post))
@@ -455,6 +478,10 @@ func (x *Exec) callCallback(p *Path, fv SV, args []SV, res ssa.Value, in ssa.Ins
 			case SF64:
 				p.assume(fmt.Sprintf("((_ is VFloat) %s)", raw))
 			}
+		}
+		if r.K == KTerm && r.S == SVal {
+			// type invariant of callback results
+			p.assume(fmt.Sprintf("(okArg %s %s)", p.H, raw))
 		}
 		x.bind(p, res, x.define(p, "cb", r))
 	} else if res != nil {
